@@ -1301,11 +1301,23 @@ impl ErasedNode for Node {
         let child1_pci_ = child1.parent_child_indices();
         let child2_pci_ = child2.parent_child_indices();
         let mut parent_pci = parent_pci_.borrow_mut();
-        let mut child1_pci = child1_pci_.borrow_mut();
-        let mut child2_pci = child2_pci_.borrow_mut();
 
         let index_of_parent_in_child1 = parent_pci.my_parent_index_in_child_at_index[child_index1 as usize];
         let index_of_parent_in_child2 = parent_pci.my_parent_index_in_child_at_index[child_index2 as usize];
+        if child1.ptr_eq(child2) {
+            // Two dependencies on one and the same child: there is only one index table to
+            // update (and only one RefCell to borrow).
+            let mut child_pci = child1_pci_.borrow_mut();
+            debug_assert_eq!(child_pci.my_child_index_in_parent_at_index[index_of_parent_in_child1 as usize], child_index1);
+            debug_assert_eq!(child_pci.my_child_index_in_parent_at_index[index_of_parent_in_child2 as usize], child_index2);
+            child_pci.my_child_index_in_parent_at_index[index_of_parent_in_child1 as usize] = child_index2;
+            child_pci.my_child_index_in_parent_at_index[index_of_parent_in_child2 as usize] = child_index1;
+            parent_pci.my_parent_index_in_child_at_index[child_index1 as usize] = index_of_parent_in_child2;
+            parent_pci.my_parent_index_in_child_at_index[child_index2 as usize] = index_of_parent_in_child1;
+            return;
+        }
+        let mut child1_pci = child1_pci_.borrow_mut();
+        let mut child2_pci = child2_pci_.borrow_mut();
         debug_assert_eq!(child1_pci.my_child_index_in_parent_at_index[index_of_parent_in_child1 as usize], child_index1);
         debug_assert_eq!(child2_pci.my_child_index_in_parent_at_index[index_of_parent_in_child2 as usize], child_index2);
         /* now start swapping */
